@@ -532,7 +532,7 @@ void ElectrostaticsPostProcessor::lineIntegral(int intType, double (&results)[2]
                     flag=false;
                     for(int j=0;j<3;j++)
                     {
-                        for(int m=0; m<NumList[meshelems[elm]->p[j]]; m++)
+                        for(int m=0; j<3 && m<NumList[meshelems[elm]->p[j]]; m++)
                         {
                             elm=ConList[meshelems[elm]->p[j]][m];
                             if (InTriangleTest(pt.re,pt.im,elm))
@@ -620,7 +620,7 @@ void ElectrostaticsPostProcessor::lineIntegral(int intType, double (&results)[2]
                 {
                     flag=false;
                     for(int j=0;j<3;j++)
-                        for(int m=0;m<NumList[meshelems[elm]->p[j]];m++)
+                        for(int m=0;j<3 && m<NumList[meshelems[elm]->p[j]];m++)
                         {
                             elm=ConList[meshelems[elm]->p[j]][m];
                             if (InTriangleTest(pt.re,pt.im,elm))
@@ -686,7 +686,7 @@ void ElectrostaticsPostProcessor::lineIntegral(int intType, double (&results)[2]
                 {
                     flag=false;
                     for(int j=0;j<3;j++)
-                        for(int m=0;m<NumList[meshelems[elm]->p[j]];m++)
+                        for(int m=0;j<3 && m<NumList[meshelems[elm]->p[j]];m++)
                         {
                             elm=ConList[meshelems[elm]->p[j]][m];
                             if (InTriangleTest(pt.re,pt.im,elm))
